@@ -16,7 +16,7 @@ pub enum T {
     Str,
     IpAddr,
     Prefix,
-    /// registered host types: Big (Clone, 24 bytes), Pt (Copy, 3 bytes, align 1), Z (Copy, zero-sized)
+    /// registered host types: Big (Clone, 24 bytes), Pt (Copy, 3 bytes, align 1), Z (Copy, zero-sized), Zc (Clone, zero-sized)
     Host(&'static str),
     List(Box<T>),
     Opt(Box<T>),
@@ -199,6 +199,7 @@ pub fn gen_type(p: &mut Prng, env: &Env, depth: u32, in_generic: usize, o: &GenO
                 7 => T::Host("Big"),
                 8 => T::Host("Pt"),
                 9 => T::Host("Z"),
+                10 => T::Host("Zc"),
                 _ => p.pick(SCALARS).clone(),
             }
         } else {
